@@ -286,9 +286,12 @@ fn decode(t: &mut Tape) -> Case {
     p.branch = t.chance(1, 2);
     p.intrinsic = t.chance(1, 2);
     p.unreachable = t.chance(1, 2);
-    p.entry_no_preds = t.chance(1, 6);
+    p.entry_no_preds = t.chance(1, 3);
     p.raw_divisor_permille = 10;
     p.raw_address_permille = 10;
+    // "any IL function": a few blocks whose guards are not exclusive / exhaustive (execution then
+    // stops with the same fault on both sides)
+    p.broken_guards_permille = 30;
     let big_endian = t.chance(1, 2);
     let g = gen_fn(t, &p);
     let mut spec = g.spec;
@@ -1378,7 +1381,7 @@ fn main() -> std::process::ExitCode {
         "C10",
         "gen_fn IL functions (1-9 blocks, 0-4 generated operations each of all six kinds over a pool of 2-6 scalars of widths 1..128, 0-3 out-edges with exclusive/exhaustive guards, loops through the entry, self-loops, unreachable blocks that may feed live ones, entry sometimes moved) plus planted scalars assigned in 2-3 blocks and read only by the guards of one block / only by one Store, Load, Branch operand or intrinsic read set, x 8 initial states; ssa_transformation's result is checked statically (structure modulo SSA indices, single assignment, reaching-versions data-flow at every operand / guard / phi input, phi shape) and by lock-step execution against the original (reference interpreter on both, phi nodes selected by the incoming edge); non-trivial = some use (operand or guard) in the reachable part of the original is reached by >= 2 definitions of its scalar (which implies a join block); distinct = (reachable blocks, joins, set of (kind of multi-definition use, loop-carried), unreachable predecessor, phi count capped, loop through entry)",
         Box::new(|_t: Tier| from_tape(2000, decode)),
-        |t| t.pick(25_000, 2_000_000),
+        |t| t.pick(25_000, 1_000_000),
         check,
     );
     spec.render = render;
